@@ -17,7 +17,7 @@ From Octo Require Import Model.Socks5 Model.Http Proofs.AddressFacts Proofs.WsFr
                          Proofs.HttpFacts Proofs.HandshakeFacts.
 From Octo Require Import Proofs.SsTcpStreamReq Proofs.SsTcpStreamResp Proofs.VmessStream.
 From Octo Require Model.Relay Proofs.RelayFacts Generated.ExitPaths Model.ExitPaths Proofs.ExitPathFacts.
-From Octo Require Proofs.SsTcpRoundtrip Proofs.VmessSafety.
+From Octo Require Proofs.SsTcpRoundtrip Proofs.VmessSafety Proofs.VmessFacts.
 Import ListNotations.
 Open Scope N_scope.
 
@@ -1260,6 +1260,128 @@ Proof.
   apply authority_exact_noport; assumption.
 Qed.
 
+(* ---- every target the handshake hands out is one the codecs accept (provided the stream consists of bytes):
+        the two address hypotheses of flow_ok follow from the handshake's own checks ---- *)
+Lemma wf_bytes_incl (a b : bytes) : (forall x, In x a -> In x b) -> wf_bytes b -> wf_bytes a.
+Proof. unfold wf_bytes. rewrite !Forall_forall. auto. Qed.
+Lemma wf_bytes_takeN n (l : bytes) : wf_bytes l -> wf_bytes (takeN n l).
+Proof. apply wf_bytes_incl. intros x. apply in_firstn. Qed.
+Lemma wf_bytes_dropN n (l : bytes) : wf_bytes l -> wf_bytes (dropN n l).
+Proof. apply wf_bytes_incl. intros x. apply in_skipn. Qed.
+Lemma be2_lt (l : bytes) : wf_bytes l -> lenN (takeN 2 l) <= 2 -> be (takeN 2 l) < 65536.
+Proof.
+  intros Hw Hl. pose proof (VmessFacts.be_lt (takeN 2 l) (wf_bytes_takeN 2 l Hw)) as H.
+  assert (256 ^ lenN (takeN 2 l) <= 256 ^ 2) by (apply N.pow_le_mono_r; lia). change (256 ^ 2) with 65536 in *. lia.
+Qed.
+Lemma lenN_takeN_le' n (l : bytes) : lenN (takeN n l) <= n.
+Proof. rewrite lenN_spec. unfold takeN. rewrite firstn_length. lia. Qed.
+
+Lemma s5_decode_wf src a r : wf_bytes src -> s5_decode src = Ok (a, r) -> addr_wf a.
+Proof.
+  intros Hw. unfold s5_decode.
+  destruct (s5_try_decode_at src 0) as [[n|]|e|]; cbn [bind]; try discriminate.
+  destruct (lenN src <? n); [discriminate|].
+  destruct src as [|t r0]; cbn [get_u8 bind]; [discriminate|].
+  assert (Hw0 : wf_bytes r0) by (inversion Hw; assumption).
+  assert (P16 : forall l, wf_bytes l -> be (takeN 2 l) < 65536) by (intros l Hl; apply be2_lt; [exact Hl|apply lenN_takeN_le']).
+  destruct (t =? 1).
+  - destruct (split_to 4 r0) as [[ip r1]| |] eqn:E1; cbn [bind]; try discriminate.
+    apply split_to_inv in E1. destruct E1 as (H4 & -> & ->).
+    destruct (get_u16 (dropN 4 r0)) as [[p r2]| |] eqn:E2; cbn [bind]; try discriminate.
+    apply get_be_inv in E2. destruct E2 as (_ & -> & _). intros [= <- _].
+    split; [apply lenN_takeN; exact H4|]. split; [apply wf_bytes_takeN; exact Hw0|]. apply P16, wf_bytes_dropN, Hw0.
+  - destruct (t =? 3).
+    + destruct r0 as [|l r1]; cbn [get_u8 bind]; [discriminate|].
+      assert (Hw1 : wf_bytes r1) by (inversion Hw0; assumption).
+      destruct (split_to l r1) as [[h r2]| |] eqn:E1; cbn [bind]; try discriminate.
+      apply split_to_inv in E1. destruct E1 as (_ & -> & ->).
+      destruct (get_u16 (dropN l r1)) as [[p r3]| |] eqn:E2; cbn [bind]; try discriminate.
+      apply get_be_inv in E2. destruct E2 as (_ & -> & _). intros [= <- _].
+      split; [apply wf_bytes_takeN; exact Hw1|]. apply P16, wf_bytes_dropN, Hw1.
+    + destruct (split_to 16 r0) as [[ip r1]| |] eqn:E1; cbn [bind]; try discriminate.
+      apply split_to_inv in E1. destruct E1 as (H4 & -> & ->).
+      destruct (get_u16 (dropN 16 r0)) as [[p r2]| |] eqn:E2; cbn [bind]; try discriminate.
+      apply get_be_inv in E2. destruct E2 as (_ & -> & _). intros [= <- _].
+      split; [apply lenN_takeN; exact H4|]. split; [apply wf_bytes_takeN; exact Hw0|]. apply P16, wf_bytes_dropN, Hw0.
+Qed.
+
+Lemma s5_command_request_wf src r c a : wf_bytes src -> s5_command_request src = Ok (r, Some (c, a)) -> addr_wf a.
+Proof.
+  intros Hw. unfold s5_command_request.
+  destruct (lenN src <? 4); [discriminate|].
+  destruct (index src 0) as [v| |]; cbn [bind]; try discriminate. destruct (negb (v =? S5_VERSION)); [discriminate|].
+  destruct (index src 1) as [c'| |]; cbn [bind]; try discriminate. destruct (negb (command_ok c')); [discriminate|].
+  destruct (s5_try_decode_at src 3) as [[al|]| |]; cbn [bind]; try discriminate.
+  destruct (lenN src <? 3 + al); [discriminate|].
+  destruct (advance 3 src) as [r3| |] eqn:E3; cbn [bind]; try discriminate.
+  destruct (s5_decode r3) as [[ad r4]| |] eqn:E4; cbn [bind]; try discriminate.
+  intros [= _ _ <-]. apply (s5_decode_wf r3 ad r4); [|exact E4].
+  unfold advance in E3. destruct (3 <=? lenN src); [|discriminate]. injection E3 as <-. apply wf_bytes_dropN, Hw.
+Qed.
+
+Lemma s5_initial_request_rest g bg ms : s5_initial_request g = Ok (bg, Some ms) -> forall x, In x bg -> In x g.
+Proof.
+  unfold s5_initial_request. destruct (lenN g <? 2); [discriminate|].
+  destruct (index g 0) as [v| |]; cbn [bind]; try discriminate. destruct (negb (v =? S5_VERSION)); [discriminate|].
+  destruct (index g 1) as [cnt| |]; cbn [bind]; try discriminate. destruct (lenN g <? 2 + cnt); [discriminate|].
+  destruct (advance 2 g) as [r| |] eqn:E2; cbn [bind]; try discriminate.
+  destruct (split_to cnt r) as [[ms' r2]| |] eqn:E3; cbn [bind]; try discriminate.
+  destruct (forallb auth_method_ok ms'); [|discriminate]. intros [= <- _] x Hx.
+  apply split_to_inv in E3. destruct E3 as (_ & _ & ->).
+  unfold advance in E2. destruct (2 <=? lenN g); [|discriminate]. injection E2 as <-.
+  apply in_skipn in Hx. apply in_skipn in Hx. exact Hx.
+Qed.
+
+Lemma s5_finish_tunnel_rep local cmd dst r k a reply n : s5_finish local cmd dst r = Tunnel k a reply n -> representable a.
+Proof.
+  unfold s5_finish. destruct (negb (cmd =? 1) || match dst with ADom h _ => lenN h =? 0 | _ => false end); [discriminate|].
+  destruct dst as [ip p|ip p|h p].
+  - intros [= _ <- _ _]. exact I.
+  - intros [= _ <- _ _]. exact I.
+  - destruct (host_ok h) eqn:Hh; [|discriminate]. intros [= _ <- _ _]. apply host_ok_range, Hh.
+Qed.
+
+Theorem handshake_target_acceptable : forall s local hist k a reply n,
+  wf_bytes s -> handshake s local hist = Tunnel k a reply n -> addr_wf a /\ representable a.
+Proof.
+  intros s local hist k a reply n Hw H. destruct (is_socks5 s) eqn:Hs.
+  - split.
+    + destruct (socks5_tunnel_sound s local hist k a reply n Hs H) as (_ & _ & g & bg & ms & r & br & tl & Es & Hg & Hr & _).
+      apply (s5_command_request_wf (bg ++ r) br 1 a); [|exact Hr].
+      subst s. apply Forall_app in Hw. destruct Hw as [Hwg Hw2]. apply Forall_app in Hw2. destruct Hw2 as [Hwr _].
+      apply Forall_app. split; [|exact Hwr]. apply (wf_bytes_incl bg g); [apply (s5_initial_request_rest g bg ms Hg)|exact Hwg].
+    + rewrite (handshake_socks5 s local hist Hs) in H. unfold s5_handshake in H.
+      destruct (s5_read_message s5_initial_request [] s) as [ms bg un| | |]; try discriminate.
+      destruct (s5_read_message s5_command_request bg un) as [[cmd dst] br un'| | |]; try discriminate.
+      eapply s5_finish_tunnel_rep. exact H.
+  - destruct (http_tunnel_sound s local hist k a reply n Hs H) as (bl & m & u & r & Es & _ & _ & _ & _ & Hk).
+    assert (Hr : recognize_http m u = Ok (PHttp a) \/ recognize_http m u = Ok (PHttps a))
+      by (destruct Hk as [(_ & Hr & _)|(_ & Hr & _)]; auto).
+    destruct (recognize_http_cases m u) as [[e E]|(h & v & E & Hl & Hv & Hin)].
+    { rewrite E in Hr. destruct Hr; discriminate. }
+    assert (Ea : a = ADom h v).
+    { rewrite E in Hr. destruct (bytes_eqb m CONNECT); destruct Hr as [Hr|Hr]; try discriminate Hr; injection Hr as <-; reflexivity. }
+    subst a. split; [|exact Hl]. split; [|exact Hv].
+    apply (wf_bytes_incl h s); [|exact Hw]. intros x Hx. apply Hin in Hx. subst s. unfold request_line_bytes.
+    apply in_or_app. left. apply in_or_app. right. apply in_or_app. right. apply in_or_app. right. apply in_or_app. left. exact Hx.
+Qed.
+
+(* C01 for a stream of bytes: the address hypotheses of flow_ok are consequences *)
+Corollary c01_flow_transparent_bytes : forall P cfg i k target reply consumed,
+  wf_bytes (fi_app i) ->
+  handshake (fi_app i) (fi_local i) (fi_hist i) = Tunnel k target reply consumed ->
+  proto_ok P cfg target -> reads_split i consumed ->
+  carries (fi_req i) (req_msgs P cfg target ([] :: fi_reads i)) -> req_delivery_ok cfg (fi_req i) ->
+  carries (fi_ans i) (ans_msgs P cfg (info_of P cfg target) (fi_target i)) -> ans_delivery_ok cfg (fi_ans i) ->
+  exists to_target to_app,
+    e2e_flow P cfg i = FRelayed k target reply consumed target to_target to_app /\
+    concat to_target = dropN consumed (fi_app i) /\ concat to_app = concat (fi_target i).
+Proof.
+  intros P cfg i k target reply consumed Hw Hh Hp Hr Hq Hqf Ha Haf.
+  destruct (handshake_target_acceptable _ _ _ _ _ _ _ Hw Hh) as [Hwf Hrep].
+  apply c01_flow_transparent. constructor; [exact Hh|]. constructor; assumption.
+Qed.
+
 (* ---- what the bundled hypotheses say, spelled out (so that the pinned statements show them) ---- *)
 Lemma flow_ok_meaning P cfg i k target reply consumed :
   flow_ok P cfg i k target reply consumed <->
@@ -1558,6 +1680,8 @@ Print Assumptions e2e_answer_vmess.
 Print Assumptions proto_request_transparent.
 Print Assumptions proto_answer_transparent.
 Print Assumptions c01_flow_transparent.
+Print Assumptions handshake_target_acceptable.
+Print Assumptions c01_flow_transparent_bytes.
 Print Assumptions e2e_ws_same_as_stream.
 Print Assumptions flow_request_exact.
 Print Assumptions flow_answer_exact.
